@@ -97,6 +97,32 @@ func Projection(r *fw.Rand, d bson.D, o ProjOpts) bson.D {
 		if len(arrs) > 0 && r.Chance(3, 4) {
 			nested = arrs
 		}
+		// two operator overlays, the second on a path inside an element that
+		// the first one hands out (the window shares its elements with the
+		// stored array)
+		if !o.NoInvalid && r.Chance(1, 3) {
+			for _, p := range paths {
+				a, ok := ref.GetPath(d, p).(bson.A)
+				if !ok || len(a) == 0 || HasNumericSeg(p) {
+					continue
+				}
+				if ed, ok := a[0].(bson.D); ok {
+					for _, f := range ed {
+						if fa, ok := f.Value.(bson.A); ok && len(fa) > 1 {
+							first := bson.E{Key: p, Value: bson.D{{Key: "$slice", Value: int32(len(a))}}}
+							if r.Bool() {
+								first = bson.E{Key: p, Value: bson.D{{Key: "$elemMatch", Value: bson.D{{Key: f.Key, Value: bson.D{{Key: "$exists", Value: true}}}}}}}
+							}
+							second := bson.E{Key: p + ".0." + f.Key, Value: bson.D{{Key: "$slice", Value: int32(1)}}}
+							if r.Bool() {
+								return bson.D{first, second}
+							}
+							return bson.D{second, first}
+						}
+					}
+				}
+			}
+		}
 		if len(nested) > 0 {
 			p := fw.Pick(r, nested)
 			parent := p[:strings.LastIndex(p, ".")]
